@@ -86,7 +86,8 @@ def st_event(draw):
             tags.append([name, draw(st.sampled_from(
                 [str(E.T0 - 1), str(E.T0), str(E.T0 + 1), str(E.T0 + 50), "abc", ""]))])
         elif which == 9:
-            v = draw(st.sampled_from([1, True, None, 2.5, ["n"], 0, False, 1.0]))
+            v = draw(st.sampled_from([1, True, None, 2.5, ["n"], 0, False, 1.0, 0.1, 48.8566, {"a": [1]}, {"a": {"b": ["x", 2]}},
+                                      [["n"], {"k": [0.1]}], {}]))
             tags.append([name, v])
             if draw(st.booleans()):  # a sibling that compares equal in Python but renders differently
                 tags.append([name, draw(st.sampled_from([1, True, 1.0, 0, False, "1", [["n"]]]))])
